@@ -116,15 +116,15 @@ std::map<IndexCombination4,std::vector<ComplexType> > TwoParticleGFContainer::co
         //    if (comm.rank() == sender) INFO("P" << comm.rank() << " 2pgf " << p << " " << chi.parts[p]->NonResonantTerms.size());
             boost::mpi::broadcast(comm, chi.parts[p]->NonResonantTerms, sender);
             boost::mpi::broadcast(comm, chi.parts[p]->ResonantTerms, sender);
-            std::vector<ComplexType> freq_data;
-            if (comm.rank() == sender) freq_data = storage[iter->first];
-            boost::mpi::broadcast(comm, freq_data, sender);
-            out[iter->first] = freq_data;
-
-            if (comm.rank() != sender) {
-                chi.setStatus(TwoParticleGF::Computed);
-                 };
             };
+        // the table of values (also for a component without parts)
+        std::vector<ComplexType> freq_data;
+        if (comm.rank() == sender) freq_data = storage[iter->first];
+        boost::mpi::broadcast(comm, freq_data, sender);
+        out[iter->first] = freq_data;
+        if (comm.rank() != sender) {
+            chi.setStatus(TwoParticleGF::Computed);
+             };
     }
     comm.barrier();
     if (!comm.rank()) INFO("done.");
